@@ -193,10 +193,11 @@ type PassRes struct {
 // implementation-only case; the oracle in checks/c16.py reads the property off
 // them: accepted only if all hold.
 type Facts struct {
-	Genuine bool   `json:"genuine"`           // bit-for-bit what was issued under the verifying key
-	InTime  bool   `json:"intime"`            // presented inside its validity window
-	Consent bool   `json:"consent"`           // every caller-supplied callback answered without error
-	Payload string `json:"payload,omitempty"` // hex: what was signed (compared when accepted)
+	Genuine  bool   `json:"genuine"`            // bit-for-bit what was issued under the verifying key
+	OtherKey bool   `json:"otherkey,omitempty"` // issued, but under a key other than the verifying one
+	InTime   bool   `json:"intime"`             // presented inside its validity window
+	Consent  bool   `json:"consent"`            // every caller-supplied callback answered without error
+	Payload  string `json:"payload,omitempty"`  // hex: what was signed (compared when accepted)
 }
 
 // CBShape is the answer of a Gate's check callback.
